@@ -198,7 +198,7 @@ theorem table_roundtrip (data : List (List ℚ)) (dims : List ℚ) (header : Lis
     rw [List.map_flatten, hvals]
     unfold importCore
     have hlen : 0 < data.length := List.length_pos_iff.mpr hr
-    rw [if_neg (by omega)]
+    rw [if_neg (by omega), if_neg (by omega)]
     have hrowsN : header.length + data.length - header.length = data.length := by omega
     simp only [hrowsN]
     have hflat := length_flatten_const _ c hrows
@@ -312,7 +312,7 @@ example : String.ofList (joinWith '\t' ([1, -5 / 2, 0].map fmt6)) = "1\t-2.5\t0"
 /-- **export_import_bytes_roundtrip**: for every rectangular table of rationals (`r ≥ 1` rows,
     `c ≥ 1` columns), every header text (any number `h` of lines, each shorter than the 10000
     characters `ignore` skips at most), no unit factors or one non-zero factor per column, and every
-    written six-digit value in the finite `double` range: `Export_Table` succeeds; `Count_Lines` of
+    written six-digit value in the finite `long double` range of the reader (after 5c3fb95; true of every quotient of finite non-zero doubles: `inLd_quotient`): `Export_Table` succeeds; `Count_Lines` of
     the BYTES it writes is `h + r`; lexing those bytes the way the import does (`h` × `ignore`, then
     `>>` tokens) yields exactly the `r·c` renderings in row order; and `Import_Table` of the bytes
     with `ignored_initial_lines = h` and the same unit factors returns the table of the same shape
@@ -322,7 +322,7 @@ theorem export_import_bytes_roundtrip (data : List (List ℚ)) (dims : List ℚ)
     (hr : data ≠ []) (hc : 1 ≤ c) (hrect : ∀ row ∈ data, row.length = c)
     (hd : dims = [] ∨ dims.length = c) (_hu : ∀ u ∈ dims, u ≠ 0)
     (hh : ∀ l ∈ headerLinesC header, l.length < 10000)
-    (hfin : ∀ row ∈ data, ∀ t ∈ exportRowT dims row, InDbl (tokVal t)) :
+    (hfin : ∀ row ∈ data, ∀ t ∈ exportRowT dims row, InLd (tokVal t)) :
     ∃ bytes, exportTable data dims header = .ok bytes ∧
       countLines bytes = headerLineCount header + data.length ∧
       lexFile bytes (headerLineCount header)
@@ -386,8 +386,8 @@ example : ∃ bytes, exportTable [[1, 5 / 2], [0, -1099511627776]] [1, 2] "# a\n
   refine ⟨_, rfl, ?_⟩
   decide +kernel
 
-example : InDbl (tokVal (tokOf (5 / 2))) ∧ InDbl (tokVal (tokOf 0)) :=
-  ⟨inDbl_tokOf _ (Or.inr (by decide +kernel)), inDbl_tokOf _ (Or.inl rfl)⟩
+example : InLd (tokVal (tokOf (5 / 2))) ∧ InLd (tokVal (tokOf 0)) :=
+  ⟨inLd_tokOf _ (Or.inr (by decide +kernel)), inLd_tokOf _ (Or.inl rfl)⟩
 
 /-- non-vacuity: the hypotheses of the theorem hold for this table, and the theorem's conclusion is
     the round trip computed above -/
@@ -407,10 +407,10 @@ example : ∃ bytes f, exportTable [[1, 5 / 2], [0, -1099511627776]] [1, 2] "# a
 
 /-- **list_bytes_roundtrip**: `Import_List` of the BYTES `Export_List` writes (any header text with
     lines shorter than 10000 characters, `ignored_initial_lines` = its line count, any unit `u`,
-    written values in the finite `double` range) returns `back x_i u` for every entry, in order -/
+    written values in the finite `long double` range: `inLd_quotient`) returns `back x_i u` for every entry, in order -/
 theorem list_bytes_roundtrip (data : List ℚ) (u : ℚ) (header : List Char)
     (hh : ∀ l ∈ headerLinesC header, l.length < 10000)
-    (hfin : ∀ x ∈ data, InDbl (tokVal (tokOf (x / u)))) :
+    (hfin : ∀ x ∈ data, InLd (tokVal (tokOf (x / u)))) :
     importList (exportList data u header) u (headerLineCount header) = .ok (data.map (fun x => back x u)) := by
   unfold importList exportList lexFile
   rw [skipLines_header header _ hh, splitWs_listBody u data]
@@ -441,7 +441,23 @@ theorem exportT_mismatch (data : List (List ℚ)) (dims : List ℚ) (header : Li
 theorem importCore_mismatch (n : ℕ) (vals dims : List ℚ) (k : ℕ) (hk : k < n) (hd : dims ≠ [])
     (hne : dims.length ≠ vals.length / (n - k)) : importCore n vals dims k = .error .diag := by
   unfold importCore
-  rw [if_neg (by omega), if_pos ⟨by simpa using hd, hne⟩]
+  rw [if_neg (by omega), if_neg (by omega), if_pos ⟨by simpa using hd, hne⟩]
+
+/-- **no line left after the ignored ones is an empty table** (5eb5000): an empty file, or a file that
+    holds header lines only, read with that number of ignored lines — whatever tokens and unit factors -/
+theorem importCore_no_lines (n : ℕ) (vals dims : List ℚ) : importCore n vals dims n = .ok [] := by
+  unfold importCore
+  rw [if_neg (by omega), if_pos rfl]
+
+/-- the export of a table without rows is the header alone (or nothing), and reading it back with the
+    number of header lines written gives the empty table -/
+theorem empty_table_roundtrip (dims : List ℚ) (header : List (List Tok)) :
+    ∃ f, exportT [] dims header = .ok f ∧ importT f dims header.length = .ok [] := by
+  refine ⟨⟨header, []⟩, ?_, ?_⟩
+  · unfold exportT; simp
+  · unfold importT TFile.lines
+    simp only [List.append_nil]
+    exact importCore_no_lines _ _ _
 
 /-! ## In_Units -/
 
